@@ -1,5 +1,5 @@
 //! Mini backtracking regex matcher (the oracle must not call the engine under test).
-//! Supports: literals, `.`, `*`, `+`, `?`, `^`, `$`, `|`, groups, classes, `\d \w \s` and escapes,
+//! Supports: literals, `.`, `*`, `+`, `?`, `{m}` `{m,}` `{m,n}`, `^`, `$`, `|`, groups, classes, `\d \w \s` and escapes,
 //! and a leading `(?i)`. Returns None for syntax it does not know.
 #[derive(Debug, Clone)]
 enum N {
@@ -47,7 +47,24 @@ impl<'a> P<'a> {
             '*' => N::Rep(Box::new(a), 0, None),
             '+' => N::Rep(Box::new(a), 1, None),
             '?' => N::Rep(Box::new(a), 0, Some(1)),
-            '{' => return None,
+            '{' => {
+                // counted repetition {m}, {m,}, {m,n}
+                let close = (self.i..self.s.len()).find(|k| self.s[*k] == '}')?;
+                let body: String = self.s[self.i + 1..close].iter().collect();
+                let (lo, hi) = match body.split_once(',') {
+                    None => {
+                        let m: usize = body.parse().ok()?;
+                        (m, Some(m))
+                    }
+                    Some((a2, "")) => (a2.parse().ok()?, None),
+                    Some((a2, b2)) => (a2.parse().ok()?, Some(b2.parse().ok()?)),
+                };
+                if hi.map_or(false, |h| h < lo) || lo > 50 {
+                    return None;
+                }
+                self.i = close; // the common tail below steps over '}'
+                N::Rep(Box::new(a), lo, hi)
+            }
             _ => return Some(a),
         };
         self.i += 1;
